@@ -29,11 +29,12 @@ AXES = {
     "subsample": ([None, "fast", "number"], [None, "fast", "number"]),
     "K": (["vec", "mat", None], ["vec", "mat", None]),
     "baseline": (["vec", None], ["vec", None]),
+    "W": (["mat", "vec"], ["mat", "vec", None]),
 }
 
 
 def run(an, cfg):
-    kw = lsq_inputs(K=cfg["K"], baseline=cfg["baseline"], W="mat", lb="nonneg", ub="finite", bs=1)
+    kw = lsq_inputs(K=cfg["K"], baseline=cfg["baseline"], W=cfg.get("W", "mat"), lb="nonneg", ub="finite", bs=1)
     kw.pop("batch_size")
     kw.update(verbose=const(0), return_pred=const(True))
     kw["n_layers"] = intv("n_layers", "L")
@@ -114,7 +115,7 @@ def check(rep, an, tier):
             rep.check("R-FLOW", "mask → zero constraint", bool(mz), where=res.fn.loc(), construct="X[mask == 0] == 0", entry=entry,
                       config=res.config)
         # ---- objective flows
-        need = {"A", "B", "W"} | ({"K"} if cfg["K"] else set()) | ({"baseline"} if cfg["baseline"] else set())
+        need = {"A", "B"} | ({"W"} if cfg.get("W", "mat") else set()) | ({"K"} if cfg["K"] else set()) | ({"baseline"} if cfg["baseline"] else set())
         F.flow_objective(rep, res, entry, need, xprobs, label="X objective")
         F.flow_objective(rep, res, entry, need, pprobs, label="P objective")
         # the X step couples ALL samples in one objective: the weights must enter it as given (degree 1 in W) — a per-sample
@@ -155,6 +156,7 @@ def check(rep, an, tier):
                {"A": "self.A", "lb": "self.lb", "ub": "self.ub", "W": "self.W", "K": "self.K", "baseline": "self.baseline", "B": "B",
                 "n_layers": "n_layers", "mask": "mask", "lbp": "lbp", "ubp": "ubp", "seed": "seed", "subsample": "subsample",
                 "equal_l1norm_constraint": "equal_l1norm_constraint", "max_iter": "max_iter", "xtol": "xtol", "ftol": "ftol"})
+    F.wrapper_returns_solution(rep, res, "ReceptorEstimator.fit_decomposition", {"lsq_linear_decomposition"}, ("X", "P", "B"))
     rep.require("R-FLOW", 60)
     rep.require("R-TYPESTATE", 30)
     rep.require("R-SEED", 8)
